@@ -1194,7 +1194,7 @@ def loop_fragment_cases(rnd, n):
             return "barrier q[%s];" % qidx(nq)
         # gate definitions (library gates on the formals, parameters literal or formal) and calls with literal actuals
         defs = []
-        for d in range(rnd.randint(0, 2)):
+        for d in range(rnd.randint(0, 3)):
             k = rnd.randint(1, 3)
             formals = ["a", "b", "c"][:k]
             params = ["t", "u"][: rnd.randint(0, 2)]
@@ -1208,6 +1208,11 @@ def loop_fragment_cases(rnd, n):
                 else:
                     x, y = rnd.sample(formals, 2)
                     body.append("%s %s, %s;" % (rnd.choice(g2), x, y))
+            # a call of a gate defined earlier (nesting), on formals, with a parameter expression passed down
+            for pn, ppar, pk in defs:
+                if pk <= k and rnd.random() < 0.5:
+                    body.insert(rnd.randint(0, len(body)), "%s%s %s;" % (pn, "(%s)" % ", ".join(rnd.choice(params + ["0.5", "pi"]) for _ in range(ppar)) if ppar else "",
+                                                                         ", ".join(rnd.sample(formals, pk))))
             nm = "cg%d" % d
             L.append("gate %s%s %s { %s }" % (nm, "(%s)" % ", ".join(params) if params else "", ", ".join(formals), " ".join(body)))
             defs.append((nm, len(params), k))
